@@ -288,6 +288,10 @@ class Interp:
             return ("const", "str", t["data"]["str"])
         if "adt" in t:
             return ("adt", t["adt"], t["variant"], tuple(self.const_tree(x) for x in t["fields"]))
+        if "array" in t:
+            return ("op", "array", tuple(self.const_tree(x) for x in t["array"]))
+        if "tuple" in t:
+            return ("tup", tuple(self.const_tree(x) for x in t["tuple"]))
         if "bool" in t:
             return ("const", "bool", bool(t["bool"]))
         if "int" in t:
@@ -800,6 +804,27 @@ class Interp:
                 fv = fv[1]
             if fv[0] in ("closure", "fn") and args[1][0] == "tup":
                 return self.apply(st, fv, list(args[1][1]), depth, stack)
+        if tr == "std::iter::Iterator" and nm == "find" and len(args) == 2 and not fn.get("resolved_local") and \
+                self.known_elems(st, self.deref(st, args[0]) if args[0][0] == "ref" else args[0]) is not None:
+            # a search through a constant table: the elements in order, the first one the predicate accepts
+            out = []
+            work = [st]
+            rounds = 0
+            while work and rounds < 200:
+                rounds += 1
+                s_ = work.pop()
+                for s2, nxt in self.iter_next(s_, args[0], depth, stack):
+                    if nxt[2] == "None":
+                        out.append((s2, nxt))
+                        continue
+                    elem = nxt[3][0]
+                    for s3, r in self.apply(s2, args[1], [("ref", s2.alloc(elem))], depth + 1, stack):
+                        for s4, yes in self.branch_bool(s3, r):
+                            if yes:
+                                out.append((s4, self.mk(O, "Some", elem)))
+                            else:
+                                work.append(s4)
+            return out
         if tr == "std::iter::Iterator" and nm == "filter" and len(args) == 2 and not fn.get("resolved_local"):
             # an adaptor whose predicate is provably always true is the identity
             probe = st.fork()
@@ -1123,6 +1148,41 @@ class Interp:
                 return self.try_fold(st, args[0], ("tup", ()), args[1], radt, depth, stack, unit=True)
         return None
 
+    def branch_bool(self, st, v):
+        """-> [(state, truth)] of a boolean value (forks with a value condition when it is not decided)"""
+        if v[0] == "const":
+            return [(st, bool(v[2]))]
+        if v in st.known:
+            return [(st, st.known[v] != 0)]
+        s1 = st.fork()
+        s1.conds.append((self.resolve(s1, v), "val", "not:0"))
+        s1.known[v] = "other"
+        s2 = st.fork()
+        s2.conds.append((self.resolve(s2, v), "val", 0))
+        s2.known[v] = 0
+        return [(s1, True), (s2, False)]
+
+    def known_elems(self, st, it):
+        """(elements, by_reference) when `it` iterates over an array whose elements are known (a constant table)"""
+        from norm import short_callee as _sc
+        byref = False
+        if it[0] == "call" and len(it[2]) == 1 and _sc(it[1]).endswith("::iter") and not it[1].startswith("<"):
+            src, byref = it[2][0], True
+        elif it[0] == "op" and it[1] == "into_iter" and len(it[2]) == 1:
+            src = it[2][0]
+        else:
+            return None
+        for _ in range(6):
+            if src[0] == "ref":
+                src, byref = self.load_ptr(st, src[1]), True
+            elif src[0] == "rref":
+                src, byref = src[1], True
+            else:
+                break
+        if src[0] == "op" and src[1] == "array":
+            return list(src[2]), byref
+        return None
+
     def iter_next(self, st, itp, depth=0, stack=()):
         O = self.OPTION
         it = self.deref(st, itp) if itp[0] == "ref" else itp
@@ -1146,6 +1206,15 @@ class Interp:
                             out.append((s3, self.mk(O, "Some", r)))
                 return out
         rit = self.resolve(st, it)
+        ke = self.known_elems(st, it)
+        if ke is not None:
+            # a constant table: every element is known, nothing to fork on
+            elems, byref = ke
+            n = sum(1 for e in st.events if e[0] == "iter_const" and e[1] == rit)
+            if n < len(elems):
+                st.events.append(("iter_const", rit, n))
+                return [(st, self.mk(O, "Some", ("ref", st.alloc(elems[n])) if byref else elems[n]))]
+            return [(st, self.mk(O, "None"))]
         n = sum(1 for e in st.events if e[0] == "iter_next" and e[1] == rit)
         out = []
         if n < self.loop_bound:
